@@ -128,6 +128,7 @@ type TxTruth struct {
 	Failed                    bool
 	Fee                       uint64
 	PreBalances, PostBalances []uint64
+	TokenUiAmount             float64 // uiAmount of the first pre-token-balance (0 = none)
 	Logs                      []string
 	Block                     int // index into Blocks
 	Obj                       int // index into Objects
@@ -557,6 +558,12 @@ func (g *gen) tx(ts TxShape, slot uint64, pos, blockIdx, counter int) TxTruth {
 			fee = 9007199254740993 + 2*uint64(counter)
 			cu := uint64(9007199254740995)
 			meta.Fee, meta.PreBalances, meta.PostBalances, meta.ComputeUnitsConsumed = fee, []uint64{18446744073709551615, 400000000000000001}, []uint64{18446744073709551615 - fee, 400000000000000001}, &cu
+		}
+		if ts.BigAmounts {
+			// a token balance whose UI amount has nine fractional digits (a 9-decimals mint)
+			tt.TokenUiAmount = 1.234567891 + float64(counter%5)*1e-9
+			meta.PreTokenBalances = []*confirmed_block.TokenBalance{{AccountIndex: 1, Mint: Account(40).String(), Owner: Account(41).String(),
+				UiTokenAmount: &confirmed_block.UiTokenAmount{UiAmount: tt.TokenUiAmount, Decimals: 9, Amount: fmt.Sprint(uint64(tt.TokenUiAmount * 1e9)), UiAmountString: fmt.Sprint(tt.TokenUiAmount)}}}
 		}
 		tt.PreBalances, tt.PostBalances = meta.PreBalances, meta.PostBalances
 		if ts.Failed {
